@@ -96,6 +96,81 @@ def contract(env_name, backend, tiers):
                     'pure (no effects, identical re-trace), done0 (reset.done is the constant 0, independent of the key)', run, backend='abstract-interp', tiers=tiers, budget=900)
 
 
+def _bool_options(env_name):
+  """constructor options with a boolean default, read off the real __init__ signature"""
+  import inspect
+  from brax import envs
+  cls = envs._envs[env_name]
+  return [k for k, v in inspect.signature(cls.__init__).parameters.items() if isinstance(v.default, bool)]
+
+
+def option_typing(env_name, backend, tiers):
+  """the Env typing contract under every single flipped boolean constructor option and under all of them flipped together (the defaults are covered by `contract`)"""
+  def run():
+    with jax.enable_x64(False):
+      return run32()
+
+  def run32():
+    from brax import envs
+    opts = _bool_options(env_name)
+    cls = envs._envs[env_name]
+    import inspect
+    dflt = {k: inspect.signature(cls.__init__).parameters[k].default for k in opts}
+    combos = [{k: not dflt[k]} for k in opts] + ([{k: not dflt[k] for k in opts}] if len(opts) > 1 else [])
+    bad, done, rejected = [], 0, []
+    for kw in combos:
+      try:
+        env = envs.get_environment(env_name, backend=backend, **kw)
+      except NotImplementedError as e:      # an option the constructor itself documents as unavailable
+        rejected.append('%s: %s' % (kw, str(e)[:60]))
+        continue
+      try:
+        rs = jax.eval_shape(env.reset, jax.random.PRNGKey(0))
+        ss = jax.eval_shape(env.step, rs, jax.ShapeDtypeStruct((env.action_size,), rs.reward.dtype))
+      except Exception as e:      # noqa: BLE001
+        bad.append('%s: reset/step cannot be traced: %s: %s' % (kw, type(e).__name__, str(e)[:160]))
+        continue
+      done += 1
+      if jax.tree_util.tree_structure(rs) != jax.tree_util.tree_structure(ss):
+        bad.append('%s: step changes the State structure' % (kw,))
+        continue
+      for (p_, a), b in zip(jax.tree_util.tree_flatten_with_path(rs)[0], jax.tree_util.tree_leaves(ss)):
+        if a.shape != b.shape or a.dtype != b.dtype:
+          bad.append('%s: %s: reset %s%s vs step %s%s' % (kw, jax.tree_util.keystr(p_), a.dtype, a.shape, b.dtype, b.shape))
+      if rs.obs.shape != (env.observation_size,) or ss.obs.shape != (env.observation_size,):
+        bad.append('%s: observation shapes reset %s / step %s vs observation_size %s' % (kw, rs.obs.shape, ss.obs.shape, env.observation_size))
+    if bad:
+      return Result(REFUTED, '%s/%s: %s' % (env_name, backend, '; '.join(bad)[:600]), witness={'env': env_name, 'backend': backend, 'violations': bad[:8]},
+                    replay=_replay_options(env_name, backend))
+    if not done:
+      return Result(PROVED, 'no boolean constructor option (or all rejected by the constructor: %s)' % rejected, stats={'combos': 0})
+    return Result(PROVED, 'typing holds for all keys/states/actions under %d option settings %s%s' % (done, opts, ('; rejected by the constructor: %s' % rejected) if rejected else ''),
+                  stats={'combos': done})
+  return Obligation('C16/%s/%s/option_typing' % (env_name, backend), 'brax.envs:%s (__init__ options, reset, step)' % env_name,
+                    'for each boolean constructor option flipped (singly and all together): reset and step trace, the State structure/shapes/dtypes are stable under step and the observation width '
+                    'is observation_size, for all keys/states/actions', run, backend='abstract-interp', tiers=tiers, budget=900)
+
+
+def _replay_options(env_name, backend):
+  """native: scan env.step under the flipped options (a State whose type changes under step cannot be a scan carry, i.e. cannot be driven by the training wrappers)"""
+  import inspect
+  from brax import envs
+  out = []
+  with jax.enable_x64(False):
+    cls = envs._envs[env_name]
+    for k in _bool_options(env_name):
+      kw = {k: not inspect.signature(cls.__init__).parameters[k].default}
+      try:
+        env = envs.training.wrap(envs.get_environment(env_name, backend=backend, **kw), episode_length=10)
+        st = env.reset(jax.random.split(jax.random.PRNGKey(0), 2))
+        jax.lax.scan(lambda s, _: (env.step(s, jp.zeros((2, env.action_size))), None), st, None, length=2)
+      except NotImplementedError:
+        continue
+      except Exception as e:      # noqa: BLE001
+        out.append({'options': kw, 'error': '%s: %s' % (type(e).__name__, str(e)[:300])})
+  return {'reproduced': bool(out), 'failures': out}
+
+
 def _replay_total(env_name, backend):
   from brax import envs
   try:
@@ -278,6 +353,13 @@ def obligations(tier):
     if e not in seen and e != 'swimmer':
       seen.add(e)
       q1.append((e, b))
+  for e in ENVS:
+    bs = [b for b in BACKENDS if supported(e, b)]
+    b0 = bs[ENVS.index(e) % len(bs)]
+    obs.append(option_typing(e, b0, Q))
+    for b in bs:
+      if b != b0:
+        obs.append(option_typing(e, b, Th))
   obs.append(cross_process(q1 if tier == 'quick' else [p for p in qpairs + allpairs if p[0] != 'swimmer'], Q))
   for e, b in [('inverted_pendulum', 'generalized'), ('reacher', 'spring'), ('hopper', 'positional'), ('swimmer', 'generalized')]:
     obs.append(rollout(e, b, 100, 4, Q))
